@@ -7,8 +7,9 @@
 //	                         the (real or mirrored) context check rejects against the state before the block
 //	                         is dropped, exactly as the node would never have it in a block
 //	     tx: regcr:<i> updcr:<i>:<n> unregcr:<i> votecr:<v>:<i>=<a>,<j>=<b>… unvote:<v>
+//	         retdep:<i> fund:<e|a>:<amount>
 //	         prop:<id>:<member> review:<id>:<member>:<a|r> rejvote:<v>:<id>:<amount>
-//	         track:<id>:<p|t|f>:<stage> withdraw:<id> impeach:<v>:<member>:<amount>
+//	         track:<id>:<p|r|t|f>:<stage> withdraw:<id> impeach:<v>:<member>:<amount>
 //	rb <k>                   Committee.RollbackTo(k), compared leaf by leaf (KeyFrame, StateKeyFrame,
 //	                         ProposalKeyFrame) with a FRESH Committee that processed only blocks <= k
 //
@@ -125,7 +126,10 @@ type world struct {
 	props   map[int]common.Uint256
 	blkUsed common.Fixed64
 	replaced bool // a rollback has replaced Candidate objects by copies
+	regTxs   map[int]interfaces.Transaction // latest RegisterCR transaction per candidate (its output 0 is the deposit)
+	spent    map[common.Uint256]bool        // register txs whose deposit output was taken back
 	seen     map[*crstate.Candidate]bool
+	reUnreg  map[uint32]bool // heights of blocks with UnregisterCR / UpdateCR on a candidate whose CancelHeight != 0 but which is Pending/Active
 }
 
 var w *world
@@ -151,7 +155,8 @@ func newWorld(era int) *world {
 	if era == 1 {
 		p.CRConfiguration.ChangeCommitteeNewCRHeight = 0
 	}
-	ww := &world{era: era, params: p, voteTxs: map[int]interfaces.Transaction{}, props: map[int]common.Uint256{}}
+	ww := &world{era: era, params: p, voteTxs: map[int]interfaces.Transaction{}, props: map[int]common.Uint256{},
+		regTxs: map[int]interfaces.Transaction{}, spent: map[common.Uint256]bool{}}
 	ckp := checkpoint.NewManager(p)
 	cm := crstate.NewCommittee(p, ckp)
 	cm.RegisterFuncitons(&crstate.CommitteeFuncsConfig{
@@ -240,10 +245,10 @@ func (w *world) build(d string, used map[string]bool) interfaces.Transaction {
 		i := ci(p[1])
 		k := cands[i]
 		nick := fmt.Sprintf("C%d", i)
-		if !cm.IsInVotingPeriod(h) || cm.GetCandidate(k.cid()) != nil || cm.ExistCandidateByNickname(nick) || !mark("c"+p[1]) {
-			return nil
+		if cm.ExistCandidateByNickname(nick) {
+			nick = fmt.Sprintf("C%d-again%d", i, w.nonce) // a later registration of the same CID
 		}
-		if w.era == 1 && cm.IsCRMember(k.code) && false {
+		if !cm.IsInVotingPeriod(h) || cm.GetCandidate(k.cid()) != nil || cm.ExistCandidateByNickname(nick) || !mark("c"+p[1]) {
 			return nil
 		}
 		info := &payload.CRInfo{Code: k.code, CID: k.cid(), DID: k.did(), NickName: nick, Url: "u", Location: 1}
@@ -252,7 +257,33 @@ func (w *world) build(d string, used map[string]bool) interfaces.Transaction {
 		info.Signature = k.sign(buf.Bytes())
 		dep, _ := contract.PublicKeyToDepositProgramHash(k.pk)
 		out := &ctypes.Output{Value: 5000 * 100000000, ProgramHash: *dep, Payload: new(outputpayload.DefaultOutput)}
-		return w.mk(ctypes.RegisterCR, 0, info, []*ctypes.Output{out}, []*program.Program{{Code: k.code}})
+		tx := w.mk(ctypes.RegisterCR, 0, info, []*ctypes.Output{out}, []*program.Program{{Code: k.code}})
+		w.regTxs[i] = tx
+		return tx
+	case "retdep": // retdep:<i>  ReturnCRDepositCoin spending the deposit output of candidate i's last RegisterCR
+		i := ci(p[1])
+		k := cands[i]
+		reg, ok := w.regTxs[i]
+		if !ok || w.spent[reg.Hash()] || !mark("c"+p[1]) {
+			return nil
+		}
+		ref := ctypes.NewOutPoint(reg.Hash(), 0)
+		val, live := cm.GetState().DepositOutputs[ref.ReferKey()]
+		if !live || cm.GetAvailableDepositAmount(k.cid()) < val {
+			return nil // the context check only lets the unlocked part of the deposit go
+		}
+		tx := w.mk(ctypes.ReturnCRDepositCoin, 0, &payload.ReturnDepositCoin{}, nil, []*program.Program{{Code: k.code}})
+		tx.SetInputs([]*ctypes.Input{{Previous: *ref}})
+		w.spent[reg.Hash()] = true
+		return tx
+	case "fund": // fund:<e|a>:<amount>  an output to the CR expenses / CR assets address
+		amt, _ := strconv.ParseInt(p[2], 10, 64)
+		to := *w.params.CRConfiguration.CRExpensesProgramHash
+		if p[1] == "a" {
+			to = *w.params.CRConfiguration.CRAssetsProgramHash
+		}
+		out := &ctypes.Output{Value: common.Fixed64(amt), ProgramHash: to, Payload: new(outputpayload.DefaultOutput)}
+		return w.mk(ctypes.TransferAsset, 0, &payload.TransferAsset{}, []*ctypes.Output{out}, nil)
 	case "updcr":
 		i := ci(p[1])
 		k := cands[i]
@@ -262,6 +293,12 @@ func (w *world) build(d string, used map[string]bool) interfaces.Transaction {
 			!cm.IsInVotingPeriod(h) || !mark("c"+p[1]) {
 			return nil
 		}
+		if c.CancelHeight != 0 {
+			if w.reUnreg == nil {
+				w.reUnreg = map[uint32]bool{}
+			}
+			w.reUnreg[h] = true
+		}
 		return w.mk(ctypes.UpdateCR, 0, &payload.CRInfo{Code: k.code, CID: k.cid(), DID: k.did(), NickName: nick, Url: "u2", Location: 2}, nil, nil)
 	case "unregcr":
 		i := ci(p[1])
@@ -269,6 +306,12 @@ func (w *world) build(d string, used map[string]bool) interfaces.Transaction {
 		c := cm.GetCandidate(k.cid())
 		if c == nil || !(c.State == crstate.Pending || c.State == crstate.Active) || !cm.IsInVotingPeriod(h) || !mark("c"+p[1]) {
 			return nil
+		}
+		if c.CancelHeight != 0 {
+			if w.reUnreg == nil {
+				w.reUnreg = map[uint32]bool{}
+			}
+			w.reUnreg[h] = true
 		}
 		return w.mk(ctypes.UnregisterCR, 0, &payload.UnregisterCR{CID: k.cid()}, nil, nil)
 	case "votecr":
@@ -388,7 +431,7 @@ func (w *world) build(d string, used map[string]bool) interfaces.Transaction {
 		if !ok || !mark("p"+p[1]) {
 			return nil
 		}
-		tt := map[string]payload.CRCProposalTrackingType{"p": payload.Progress, "t": payload.Terminated, "f": payload.Finalized}[p[2]]
+		tt := map[string]payload.CRCProposalTrackingType{"p": payload.Progress, "t": payload.Terminated, "f": payload.Finalized, "r": payload.Rejected}[p[2]]
 		stage, _ := strconv.Atoi(p[3])
 		msg := []byte(fmt.Sprintf("msg-%d", w.nonce))
 		op := []byte("opinion")
@@ -691,6 +734,13 @@ func exec(t []string) string {
 		if w.cm.LastCommitteeHeight > k || w.cm.LastVotingStartHeight > k {
 			w.replaced = true
 		}
+		lastReUnreg = false
+		for hh := range w.reUnreg {
+			if hh > k {
+				lastReUnreg = true
+				delete(w.reUnreg, hh)
+			}
+		}
 		err := w.cm.RollbackTo(k)
 		if w.noteCandidates() {
 			w.replaced = true // the rollback created Candidate objects no block ever created
@@ -718,6 +768,7 @@ func exec(t []string) string {
 			// continue from the direct build, so that every later comparison is an independent
 			// experiment and not the echo of this difference
 			fresh.blocks, fresh.props, fresh.nonce = w.blocks, w.props, w.nonce
+			fresh.regTxs, fresh.spent = w.regTxs, w.spent
 			fresh.noteCandidates()
 			w = fresh
 		}
@@ -730,12 +781,18 @@ func exec(t []string) string {
 
 // leaf names of the differences recorded in known-findings.jsonl (only used to order the report)
 var reportedN = map[string]int{}
-var lastCrossed bool
+var lastCrossed, lastReUnreg bool
+
+// UnregisterCR in the block in which the pending candidate is activated leaves it Active with CancelHeight set and
+// its nickname released; the rollback of a later UnregisterCR / UpdateCR on it writes constants
+var reUnregLeaf = map[string]bool{"S.Candidates[].CancelHeight": true, "S.Candidates[].State": true, "S.Nicknames[]": true}
 
 // fields of the objects (candidates, council members) that the rollback of a committee change /
 // voting-period start replaces by copies
 func staleLeaf(leaf string) bool {
-	return strings.HasPrefix(leaf, "S.Candidates[].") || strings.HasPrefix(leaf, "K.Members[].")
+	return strings.HasPrefix(leaf, "S.Candidates[].") || strings.HasPrefix(leaf, "K.Members[].") ||
+		strings.HasPrefix(leaf, "S.HistoryCandidates[][].") ||
+		leaf == "S.Nicknames[]" // unregisterCR / updateCandidateInfo add and delete nicknames read from the orphaned objects
 }
 
 func recorded(leaf string) bool {
@@ -745,6 +802,9 @@ func recorded(leaf string) bool {
 	// undo closures of earlier heights act on Candidate objects that the rollback of a committee
 	// change replaced by copies: any candidate field may be left un-restored
 	if lastCrossed && staleLeaf(leaf) {
+		return true
+	}
+	if lastReUnreg && reUnregLeaf[leaf] {
 		return true
 	}
 	return false
@@ -793,8 +853,10 @@ func oracle(t []string, out string) *hx.Violation {
 	if len(det) > 1500 {
 		det = det[:1500] + "…"
 	}
-	det = fmt.Sprintf("candidate-objects-replaced=%v; ", lastCrossed) + det
-	if lastCrossed && staleLeaf(first) {
+	det = fmt.Sprintf("candidate-objects-replaced=%v second-unregister=%v; ", lastCrossed, lastReUnreg) + det
+	if lastReUnreg && reUnregLeaf[first] {
+		first = "second-unregister"
+	} else if lastCrossed && staleLeaf(first) {
 		first = "S.Candidates[]:stale-object" // one finding, whatever candidate / member field shows it
 	}
 	return &hx.Violation{Kind: "rollback-differs:" + first, Detail: "Committee after RollbackTo(" + t[1] + ") differs from a fresh Committee that processed only heights <= " + t[1] + ": " + det}
@@ -820,6 +882,12 @@ func gen(g *hx.Gen) {
 			ntx := r.Intn(4)
 			if h < 6 {
 				ntx = 2 + r.Intn(2)
+			}
+			if h == 1 {
+				txs = append(txs, "fund:e:500000000000", "fund:a:5000000000000")
+			}
+			if r.Chance(6) {
+				txs = append(txs, fmt.Sprintf("retdep:%d", r.Intn(nCand)))
 			}
 			for k := 0; k < ntx; k++ {
 				i := r.Intn(nCand)
@@ -862,7 +930,7 @@ func gen(g *hx.Gen) {
 					}
 				case c < 17:
 					if props > 0 {
-						txs = append(txs, fmt.Sprintf("track:%d:%s:%d", r.Intn(props), []string{"p", "p", "f", "t"}[r.Intn(4)], r.Intn(3)))
+						txs = append(txs, fmt.Sprintf("track:%d:%s:%d", r.Intn(props), []string{"p", "p", "r", "f", "t"}[r.Intn(5)], r.Intn(3)))
 					}
 				case c < 18:
 					if props > 0 {
